@@ -856,6 +856,26 @@ fn main() {
                     fail(format!("{n} line strings ending in the query point: {:?}, expected {:?}", got, want));
                 }
             }
+            // the non-relate Contains impls built on it
+            use geo::Contains;
+            use geo_types::{MultiPoint, Point};
+            let pts = |v: &[(i64, i64)]| MultiPoint(v.iter().map(|&(x, y)| Point::new(x, y)).collect::<Vec<_>>());
+            let checks = [
+                (mp.contains(&pts(&[(2, 2), (0, 2)])), true, "interior + boundary point"),
+                (mp.contains(&pts(&[(0, 2), (4, 4)])), false, "boundary points only"),
+                (mp.contains(&pts(&[(2, 2), (6, 2)])), false, "one point outside"),
+                (mp.contains(&pts(&[])), false, "empty multi-point"),
+                (mp.contains(&c(4, 4)), false, "vertex shared by two members"),
+                (mp.contains(&c(6, 6)), true, "interior of the second member"),
+                (p.contains(&c(2, 4)), false, "point on a hole's boundary"),
+                (p.contains(&c(15, 15)), true, "interior point"),
+                (p.contains(&c(4, 4)), false, "point inside a hole"),
+            ];
+            for (got, want, what) in checks {
+                if got != want {
+                    fail(format!("contains: {what}: {got}, expected {want}"));
+                }
+            }
             println!("ok position assembly");
         }
         "area_assembly" => {
@@ -1024,6 +1044,35 @@ fn main() {
                 }
             }
             println!("ok zero-length operands");
+        }
+        "closest_of" => {
+            use geo::{Closest, ClosestPoint};
+            use geo_types::{LineString, MultiLineString, MultiPoint, Point};
+            let q = Point::new(0.0, 0.0);
+            // a repeated vertex (zero-length member) anywhere must not end or spoil the search
+            for ls in [vec![(5.0, 5.0), (5.0, 5.0), (3.0, 0.0), (3.0, 4.0)], vec![(3.0, 4.0), (3.0, 0.0), (3.0, 0.0), (5.0, 5.0)], vec![(3.0, 4.0), (3.0, 0.0), (5.0, 5.0), (5.0, 5.0)]] {
+                let l: LineString<f64> = ls.clone().into();
+                if l.closest_point(&q) != Closest::SinglePoint(Point::new(3.0, 0.0)) {
+                    fail(format!("closest point of {:?} to the origin: {:?}", ls, l.closest_point(&q)));
+                }
+            }
+            // the first intersection wins; otherwise the minimum over all members
+            let a: LineString<f64> = vec![(2.0, 2.0), (4.0, 2.0)].into();
+            let b: LineString<f64> = vec![(-1.0, 0.0), (1.0, 0.0)].into();
+            let far: LineString<f64> = vec![(9.0, 9.0), (9.0, 8.0)].into();
+            let m = MultiLineString(vec![a.clone(), far.clone(), b.clone()]);
+            if m.closest_point(&q) != Closest::Intersection(q) {
+                fail(format!("multi-line-string with a member through the query: {:?}", m.closest_point(&q)));
+            }
+            let m = MultiLineString(vec![far.clone(), a.clone(), far]);
+            if m.closest_point(&q) != Closest::SinglePoint(Point::new(2.0, 2.0)) {
+                fail(format!("multi-line-string, nearest member in the middle: {:?}", m.closest_point(&q)));
+            }
+            let none = MultiPoint::<f64>(vec![]);
+            if none.closest_point(&q) != Closest::Indeterminate {
+                fail("closest point of an empty multi-point".to_string());
+            }
+            println!("ok closest of");
         }
         _ => {
             eprintln!("unknown op {op}");
